@@ -52,6 +52,16 @@ CHECKS = {
             'per function compared for result or exception class. Equal-code twins and second closure instances converted back to back.',
             'inspect.signature and CPython call binding of the original are the reference.',
             'DESIGN.md 3/C09'),
+    'C10': ('exploration',
+            'concurrent request histories against the real cache, judged against the requesting function object; transform counter; gc churn; yield injection',
+            'Histories of to_graph / convert / converted_call requests over functions sharing code objects (different cells, '
+            'defaults, globals), a redefined module function and ephemeral functions collected mid-run, under 1-32 threads, three '
+            'switch intervals and (thorough) LINE-event yield injection inside transpiler.py/cache.py. Every reply is compared with '
+            'the native behaviour, globals and cells of the requesting function; generated source must reflect the requested '
+            'options; any exception or fallback out of the cache layer is a violation; source transformations per (code object, '
+            'options) are counted by a wrapper.',
+            'Watchdog expiry is inconclusive. Schedules are those a 16-core host produces; evidence lists the observed orders.',
+            'DESIGN.md 3/C10'),
     'C11': ('exploration',
             'differential execution with adversarial identifiers + recorder on the real Namer.new_symbol',
             'Programs whose identifiers are the converter vocabulary in every role (random stream + 10 role templates x 45 names) '
